@@ -561,6 +561,8 @@ class C11(Prop):
             self.note_tv(stats, case[1], case[2])
             if py.get('p.vbl') != mo['s.len']:
                 out.append(F('prop', 'value_byte_length', py.get('p.vbl'), mo['s.len']))
+            if mo.get('i.vbl') != mo['s.len']:
+                out.append(F('model', 'i.vbl~s.len', mo.get('i.vbl'), mo['s.len']))
             if py.get('p.bytes') is not None and py.get('p.bytes') != 'err' and str(len(py['p.bytes']) // 2) != py.get('p.vbl'):
                 out.append(F('prop', 'value_byte_length != len(encode_bytes())', py.get('p.vbl'), str(len(py['p.bytes']) // 2)))
         return out
